@@ -74,6 +74,13 @@ def r14_1(ctx):
                 if f[0] != 'rel' or f[1] not in ('Le', 'Lt', 'Eq'):
                     return False
                 return simplify(f[2]) == amount and (f"C:{gk}" in leafs(f[3]))
+        if fnm in ('enqueue_one_with', 'dequeue_one_with'):
+            isok = p_call(lambda n: n.endswith('::is_ok'), True)
+            if unguarded(F, b, [w['bb']], isok):
+                ctx.bad(f"{fnm}|length|declined", f"{fnm} changes length although the callback declined (returned Err): the element was not "
+                        f"{'written' if kind=='inc' else 'consumed'}", body=b, bb=w['bb'])
+            else:
+                ctx.ok((fnm, 'length', 'only-if-ok'), sample=dict(fn=fnm, guard='res.is_ok()'))
         bad = unguarded(F, b, [w['bb']], pred)
         if bad:
             ctx.bad(f"{fnm}|length|unguarded", f"{fnm} changes length by {show(amount)[:40]} without a dominating `{guard}` guard "
@@ -373,3 +380,38 @@ def r14_5(ctx):
             ctx.ok(('reset', nm))
         else:
             ctx.bad(f"reset|{nm}", f"PacketBuffer::reset does not clear {nm}: stale bytes/headers pair up with later packets", body=b)
+
+
+@rule('R15.2', ['C15', 'C12', 'C04'], floor=2, clause='clear() empties every slot of the tracker; an empty insertion touches nothing')
+def r15_2(ctx):
+    """T3/T1: Assembler::clear overwrites the whole `contigs` array (slice fill / whole-field store), not
+    individual slots; in Assembler::add no write through self is reachable on the size == 0 path."""
+    F = ctx.F
+    c = ctx.method(AS, 'clear')
+    whole = False
+    for x in c.calls():
+        nm = c.callee_name(x[1]) or ''
+        if nm.endswith('::fill') and x[2]:
+            o = F.origin.operand(c, x[2][0], x[0], len(c.blocks[x[0]]['s']))
+            so = simplify(o)
+            if so[0] == 'field' and [e for e in so[2] if e[0] == 'f'] and so[2][-1][0] == 'f' and so[2][-1][1] == 'contigs':
+                whole = True
+    for bi, bl in enumerate(c.blocks):
+        for s in bl['s']:
+            if s[0] == 'a':
+                np_ = c.norm(s[1])
+                if np_[0] == ('d', 1) and len(np_[1]) == 1 and np_[1][0][1] == 'contigs':
+                    whole = True
+    if whole:
+        ctx.ok(('clear', 'whole-array'), sample=dict(fn='Assembler::clear', writes='contigs[..] (all slots)'))
+    else:
+        ctx.bad("Assembler::clear|partial", "Assembler::clear does not reset every slot (stale ranges behind slot 0 reappear after the next insertion)", body=c)
+    a = ctx.method(AS, 'add')
+    ws = [w for (w, what, cut) in self_writes(F, a)]
+    nz = lambda f: f[0] == 'rel' and f[1] == 'Ne' and simplify(f[2]) == ('arg', 3) and const_int(simplify(f[3])) == 0
+    bad = unguarded(F, a, ws, nz)
+    if bad:
+        ctx.bad("Assembler::add|empty-insert-writes", "Assembler::add can modify the tracker for an empty range (size == 0): a data-less slot "
+                "in front of live ones breaks the used/unused invariant", body=a, bb=bad[0][0], path=bad[0][1])
+    else:
+        ctx.ok(('add', 'empty-noop'), sample=dict(fn='Assembler::add', writes_only_behind='size != 0'))
